@@ -63,7 +63,11 @@ pub fn attribute(m: &Mol, mol: &Molecule, kind: &str) -> String {
                 if t.kind == "torsion" {
                     let (a1, a2) = (angle_value(t.idxs[0], t.idxs[1], t.idxs[2], x), angle_value(t.idxs[1], t.idxs[2], t.idxs[3], x));
                     let degenerate = a1.sin().abs() < 1e-6 || a2.sin().abs() < 1e-6 || a1.is_nan() || a2.is_nan();
-                    if degenerate { notes.push("torsion with an end atom on the axis of its central bond (flanking angle exactly 0 or 180 deg): the dihedral angle is 0/0".to_string()); }
+                    // angle 0 (the end atom folded back onto the central bond) is the recorded finding; a torsion that exists although
+                    // a flanking angle is 180 degrees is something else: construction is supposed to drop those
+                    let folded = a1.abs() < 1e-3 || a2.abs() < 1e-3;
+                    if degenerate && folded { notes.push("torsion with an end atom on the axis of its central bond (flanking angle exactly 0): the dihedral angle is 0/0".to_string()); }
+                    else if degenerate { notes.push(format!("torsion on {:?} present although a flanking angle is 180 deg (such torsions are dropped at construction): the dihedral angle is 0/0", t.idxs)); }
                     let e = make_term(&t).energy(x);
                     if !e.is_finite() && !degenerate { notes.push(format!("torsion term on {:?} evaluates to {} at this geometry", t.idxs, e)); }
                 }
@@ -128,6 +132,28 @@ pub fn run(out: &mut Out, seed: u64, tier: &str) {
         check(out, &linear_chain(&zs, 0.9), &mut stats);
         let r = random_rotation(&mut rng);
         check(out, &moved(&linear_chain(&zs, 0.9), &r, [1.0, 2.0, 3.0]), &mut stats);
+    }
+    // a bent head on an exactly linear tail (propyne, acetonitrile, methyl isocyanide, chloropropyne ...): a tetrahedral or
+    // trigonal group whose fourth/third direction is the x axis, followed by atoms exactly on that axis — in both atom orders
+    // (head first, tail first) and both on the axis and rotated
+    for (head, subs, sub_z, tail) in [(6usize, 3usize, 1usize, vec![6usize, 6, 1]), (6, 3, 1, vec![6, 7]), (6, 3, 1, vec![7, 6]), (14, 3, 1, vec![6, 6, 17]), (6, 2, 1, vec![6, 6, 1]), (7, 2, 1, vec![6, 7])] {
+        let ang = if subs == 3 { 109.47f64 } else { 120.0f64 }.to_radians();
+        let mut zs = vec![head]; let mut xs = vec![[0.0f64, 0.0, 0.0]];
+        for k in 0..subs {
+            let phi = 2.0 * std::f64::consts::PI * k as f64 / subs as f64;
+            let r = radius(head) + radius(sub_z);
+            // substituents on a cone about -x making `ang` with +x
+            zs.push(sub_z); xs.push([r * ang.cos(), r * ang.sin() * phi.cos(), r * ang.sin() * phi.sin()]);
+        }
+        let mut x = 0.0; let mut prev = head;
+        for z in tail.iter() { x += 0.92 * (radius(prev) + radius(*z)); zs.push(*z); xs.push([x, 0.0, 0.0]); prev = *z; }
+        let m = Mol { name: format!("head{}+tail{:?}", head, tail), zs: zs.clone(), xs: xs.clone() };
+        let rev = Mol { name: format!("tail{:?}+head{}", tail, head), zs: zs.iter().rev().cloned().collect(), xs: xs.iter().rev().cloned().collect() };
+        for v in [m, rev] {
+            check(out, &v, &mut stats);
+            let r = random_rotation(&mut rng);
+            check(out, &moved(&v, &r, [0.5, -1.0, 2.0]), &mut stats);
+        }
     }
     for n in 3..=8usize { check(out, &ring(n, 6, 1.45, 1, 1.08), &mut stats); check(out, &ring(n, 7, 1.35, 0, 1.0), &mut stats); }
     let n_random = if tier == "thorough" { 3000 } else { 300 };
